@@ -12,7 +12,8 @@ META = {
              'Definition.transposed, every (<= 8, else 3 sampled) duplicated row, every duplicated '
              'column, an added full column}. For the original and for each transformed context an '
              'observation log is recorded through the public API (concept set, covering pairs, '
-             'join/meet of all pairs (<= 25 concepts, 200 sampled beyond), relations() entries); '
+             'join/meet of all pairs (<= 25 concepts, 200 sampled beyond), relations() entries, the '
+             'pairs emitted by fast_generate_from and fcbo_dual); '
              'an offline checker relates the two logs as statements about labels: permutation => '
              'identical logs; transposition => extents/intents swapped, covers reversed, join <-> '
              'meet; duplicate row => same family of intents; duplicate/full column => same family of '
@@ -64,6 +65,9 @@ def observe(ctx, rng_seed, limit, pairs_for=None):
         log['pairs_missing'] = len(pairs) - len(keyed)
     log['join'] = {(a, b): (fe(x | y), fi(x | y)) for x, y, a, b in keyed}
     log['meet'] = {(a, b): (fe(x & y), fi(x & y)) for x, y, a, b in keyed}
+    alg = _CONCEPTS.algorithms
+    log['fcbo'] = [(frozenset(e.members()), frozenset(i.members())) for e, i in alg.fast_generate_from(ctx)]
+    log['fcbo_dual'] = [(frozenset(e.members()), frozenset(i.members())) for e, i in alg.fcbo_dual(ctx)]
     rel = ctx.relations()
     log['relations'] = {(r.kind, frozenset((r.left, r.right))) if r.kind in SYMMETRIC
                         else (r.kind, r.left, r.right) for r in rel}
@@ -72,12 +76,19 @@ def observe(ctx, rng_seed, limit, pairs_for=None):
     return log
 
 
+def canon(pairs):
+    """Canonical multiset of (extent, intent) pairs."""
+    return sorted((tuple(sorted(e)), tuple(sorted(i))) for e, i in pairs)
+
+
 def differ(where, what, a, b):
     COL.violation(where, f'{where}:{what}', core.jsonable(sorted(map(repr, a))[:8]) if isinstance(a, (set, frozenset)) else core.jsonable(a),
                   core.jsonable(sorted(map(repr, b))[:8]) if isinstance(b, (set, frozenset)) else core.jsonable(b))
 
 
 def setup(concepts, spec):
+    global _CONCEPTS
+    _CONCEPTS = concepts
     attach.attach_ctor(concepts)
 
 
@@ -113,6 +124,9 @@ def run_case(concepts, case, spec):
     except Exception as e:
         COL.count('observation_raised_not_judged_here')
         return
+    for g in ('fcbo', 'fcbo_dual'):
+        if len(base[g]) != len(set(base[g])) or set(base[g]) != base['concepts']:
+            differ('self-consistency', f'{g}-differs-from-lattice-concepts', base['concepts'], set(base[g]))
     nontrivial = base['n'] >= 4
     tkey = gen.table_key(case)
     n, m = len(case['objects']), len(case['properties'])
@@ -141,6 +155,9 @@ def run_case(concepts, case, spec):
                 differ('permutation', f'{key}-changed', base[key], log[key])
         if base['order'] is not None and log['order'] != base['order']:
             differ('permutation', 'order-changed', base['order'], log['order'])
+        for g in ('fcbo', 'fcbo_dual'):
+            if canon(log[g]) != canon(base[g]):
+                differ('permutation', f'{g}-concepts-changed', set(base[g]), set(log[g]))
         COL.count('joins_compared', len(base['join']))
         if nontrivial and moved:
             COL.nontrivial(tkey, 'perm', k)
@@ -176,6 +193,10 @@ def run_case(concepts, case, spec):
                     if t is not None and (t[1], t[0]) != (me, mi):
                         differ('transposition', 'join-of-dual-is-not-meet', (me, mi), (t[1], t[0]))
                         break
+                for mine, theirs in (('fcbo', 'fcbo_dual'), ('fcbo_dual', 'fcbo')):
+                    if canon(log[mine]) != canon((i, e) for e, i in base[theirs]):
+                        differ('transposition', f'{mine}-of-dual-is-not-swapped-{theirs}',
+                               {(i, e) for e, i in base[theirs]}, set(log[mine]))
                 COL.count('joins_compared', len(base['join']))
                 if nontrivial:
                     COL.nontrivial(tkey, 'transpose')
@@ -200,6 +221,9 @@ def run_case(concepts, case, spec):
         got = {frozenset(c.intent) for c in lat}
         if got != intents:
             differ('dup-row', 'family-of-intents-changed', intents, got)
+        gi = [frozenset(i.members()) for _, i in _CONCEPTS.algorithms.fast_generate_from(c2)]
+        if sorted(map(sorted, gi)) != sorted(map(sorted, intents)):
+            differ('dup-row', 'fcbo-family-of-intents-changed', intents, set(gi))
         if len(lat) != base['n']:
             differ('dup-row', 'number-of-concepts-changed', base['n'], len(lat))
         if nontrivial:
@@ -226,6 +250,11 @@ def run_case(concepts, case, spec):
         got = {frozenset(c.extent) for c in lat}
         if got != extents:
             differ(kind.replace('_', '-'), 'family-of-extents-changed', extents, got)
+        ge = [frozenset(e.members()) for e, _ in _CONCEPTS.algorithms.fcbo_dual(c2)]
+        gi = [frozenset(e.members()) for e, _ in _CONCEPTS.algorithms.fast_generate_from(c2)]
+        for name, fam in (('fcbo_dual', ge), ('fcbo', gi)):
+            if sorted(map(sorted, fam)) != sorted(map(sorted, extents)):
+                differ(kind.replace('_', '-'), f'{name}-family-of-extents-changed', extents, set(fam))
         if len(lat) != base['n']:
             differ(kind.replace('_', '-'), 'number-of-concepts-changed', base['n'], len(lat))
         if nontrivial:
